@@ -291,7 +291,17 @@ func (g *mg) code(d int, m minfo) val.V {
 		return uq()
 	}
 	a := func() val.V { return g.code(d-1, m) }
-	switch c := g.pick("ckind", 12); {
+	switch c := g.pick("ckind", 14); {
+	case c >= 12:
+		if prev := nonRec(g.macros); len(prev) > 0 {
+			p := prev[0]
+			args := []val.V{}
+			for i := 0; i < p.fixed; i++ {
+				args = append(args, a())
+			}
+			return val.V{K: val.List, L: append([]val.V{sym(p.name)}, args...)}
+		}
+		return call("list", a(), a())
 	case c == 0:
 		return call("if", a(), a(), a())
 	case c == 1:
@@ -464,7 +474,7 @@ func genMacroCase(t *rapid.T) Case {
 		return val.V{K: val.List, L: append([]val.V{sym(m.name)}, args...)}
 	}
 	c := mk()
-	switch g.pick("wrap", 6) {
+	switch g.pick("wrap", 7) {
 	case 0: // the caller's scope decides free variables and operands
 		c = call("let", lst(sym("w"), val.I(2)), c)
 	case 1: // a local function of the same name is called as a function
@@ -473,6 +483,11 @@ func genMacroCase(t *rapid.T) Case {
 			val.V{K: val.List, L: []val.V{sym(m.name), call("trace!", val.I(901)), call("trace!", val.I(902))}})
 	case 2:
 		c = call("list", c, mk())
+	case 3:
+		// the caller rebinds the name of the first macro to a function: expansions that
+		// mention that name are evaluated in the caller's scope and must call the function
+		m := g.macros[0]
+		c = call("let", lst(sym(m.name), call("fn", lst(sym("&"), sym("xs")), call("list", val.K("local-fn"), sym("xs")))), c)
 	}
 	return Case{Mode: "macro", Defs: defs, Call: c, Short: rapid.Bool().Draw(t, "short")}
 }
